@@ -6,11 +6,11 @@
   `Std.Go.f` is a declarative specification of Go's function on ASCII arguments (tied to the real
   package the same way).  Proved here, for ALL arguments: `Lib.f = Go.f` for
       HasPrefix, HasSuffix, Index, Contains, Join, Repeat (count ≥ 0; Go panics below), CutPrefix,
-      CutSuffix, TrimPrefix, TrimSuffix, Cut
+      CutSuffix, TrimPrefix, TrimSuffix, Cut, Count, Split, TrimLeft, TrimRight, Trim, TrimSpace, Replace, ReplaceAll
+  -- all 19 functions of the library.
   including empty strings, empty separators and substrings longer than the string.
-  Count, Split, Replace, ReplaceAll, TrimLeft, TrimRight, Trim, TrimSpace are decided by the
-  exhaustive small-scope comparison of the check (rendering, specification, compiled library and Go's
-  package on the same tuples), not by a theorem.
+  The exhaustive small-scope comparison of the check (rendering, specification, compiled library and Go's
+  package on the same tuples) is what ties `Lib` to the library source and `Go` to the real package.
 -/
 import TshVerif.Model.StdStrings
 namespace Tsh.C15
@@ -287,6 +287,574 @@ theorem cut_eq (s sep : Str) : Lib.cut s sep = Go.cut s sep := by
   unfold Lib.cut Go.cut
   rw [index_eq]
   simp only [slice_zero, slice_to_end]
+
+/-! ### Count -/
+
+theorem slice_as_drop_take (s : Str) (a b : Nat) : slice s a b = (s.drop a).take (b - a) := by
+  unfold slice; rw [List.drop_take]
+
+theorem hasPrefix_at (s sub : Str) (i : Nat) : Lib.hasPrefix (slice s i s.length) sub = sub.isPrefixOf (s.drop i) := by
+  rw [hasPrefix_eq, slice_to_end]; rfl
+
+theorem countLoop_spec (s sub : Str) : ∀ (f i c : Nat), i ≤ s.length →
+    Lib.countLoop s sub f i c = c + Go.countFrom sub f (s.drop i) := by
+  intro f
+  induction f with
+  | zero => intro i c _; simp [Lib.countLoop, Go.countFrom]
+  | succ f ih =>
+    intro i c hi
+    unfold Lib.countLoop
+    by_cases hlt : i < s.length
+    · simp only [hlt, if_true]
+      have hd : s.drop i = s[i] :: s.drop (i + 1) := List.drop_eq_getElem_cons hlt
+      rw [hasPrefix_at]
+      by_cases hp : sub.isPrefixOf (s.drop i) = true
+      · simp only [hp, if_true]
+        have hle : i + sub.length ≤ s.length := by
+          have := List.IsPrefix.length_le (List.isPrefixOf_iff_prefix.mp hp)
+          simp at this; omega
+        rw [ih _ _ hle]
+        rw [hd] at hp ⊢
+        simp only [Go.countFrom, hp, if_true]
+        rw [← hd, List.drop_drop]
+        omega
+      · simp only [hp, Bool.false_eq_true, if_false]
+        rw [ih _ _ (by omega)]
+        rw [hd] at hp ⊢
+        simp only [Go.countFrom, hp, Bool.false_eq_true, if_false]
+    · have : i = s.length := by omega
+      subst this
+      simp [Go.countFrom]
+
+/-- **Count** -/
+theorem count_eq (s sub : Str) : Lib.count s sub = Go.count s sub := by
+  unfold Lib.count Go.count
+  cases sub with
+  | nil => simp
+  | cons a b =>
+    simp only [List.length_cons, Nat.add_one_ne_zero, beq_iff_eq, if_false, List.isEmpty_cons, Bool.false_eq_true]
+    rw [countLoop_spec _ _ _ _ _ (by omega)]
+    simp
+
+/-! ### Split -/
+
+theorem store_dense (elems : List Str) (v : Str) : Lib.store elems elems.length v = elems ++ [v] := by
+  simp [Lib.store]
+
+theorem slice_self (s : Str) (a : Nat) : slice s a a = [] := by
+  rw [slice_as_drop_take]; simp
+
+theorem slice_snoc (s : Str) (a b : Nat) (hab : a ≤ b) (hb : b < s.length) : slice s a b ++ [s[b]] = slice s a (b + 1) := by
+  rw [slice_as_drop_take, slice_as_drop_take]
+  have e : b + 1 - a = (b - a) + 1 := by omega
+  rw [e, List.take_add_one]
+  congr 1
+  have : (s.drop a)[b - a]? = some s[b] := by
+    rw [List.getElem?_drop]
+    have : a + (b - a) = b := by omega
+    rw [this, List.getElem?_eq_getElem hb]
+  rw [this]; rfl
+
+theorem slice_append_drop (s : Str) (a b : Nat) (hab : a ≤ b) (hb : b ≤ s.length) : slice s a b ++ s.drop b = s.drop a := by
+  rw [slice_as_drop_take]
+  have : s.drop b = (s.drop a).drop (b - a) := by rw [List.drop_drop]; congr 1; omega
+  rw [this, List.take_append_drop]
+
+theorem slice_is_prefix_test (s sep : Str) (e : Nat) :
+    (slice s e (e + sep.length) == sep) = sep.isPrefixOf (s.drop e) := by
+  rw [isPrefixOf_eq_take, slice_as_drop_take]
+  congr 2; omega
+
+theorem splitFrom_short (sep : Str) : ∀ (f : Nat) (cur rest : Str), rest.length < sep.length → rest.length < f →
+    Go.splitFrom sep f cur rest = [cur ++ rest] := by
+  intro f
+  induction f with
+  | zero => intro cur rest _ h; omega
+  | succ f ih =>
+    intro cur rest hs hf
+    cases rest with
+    | nil => simp [Go.splitFrom]
+    | cons c t =>
+      have hnp : sep.isPrefixOf (c :: t) = false := by
+        cases hp : sep.isPrefixOf (c :: t) with
+        | false => rfl
+        | true =>
+          have := List.IsPrefix.length_le (List.isPrefixOf_iff_prefix.mp hp)
+          omega
+      simp only [Go.splitFrom, hnp, Bool.false_eq_true, if_false]
+      rw [ih _ _ (by simp at hs ⊢; omega) (by simp at hf ⊢; omega)]
+      simp
+
+theorem splitLoop_spec (s sep : Str) (hsep : sep ≠ []) : ∀ (f startI endI k : Nat) (elems : List Str),
+    elems.length = k → startI ≤ endI → endI ≤ s.length → s.length - endI + 1 ≤ f →
+    Lib.store (Lib.splitLoop s sep f startI endI k elems).1 (Lib.splitLoop s sep f startI endI k elems).2.2
+        (slice s (Lib.splitLoop s sep f startI endI k elems).2.1 s.length) =
+      elems ++ Go.splitFrom sep f (slice s startI endI) (s.drop endI) := by
+  intro f
+  induction f with
+  | zero => intro startI endI k elems _ _ _ hf; omega
+  | succ f ih =>
+    intro startI endI k elems hk hse hel hf
+    have hsl : 0 < sep.length := by cases sep with | nil => exact absurd rfl hsep | cons a b => simp
+    unfold Lib.splitLoop
+    by_cases hc : endI + sep.length ≤ s.length
+    · simp only [hc, if_true]
+      have hlt : endI < s.length := by omega
+      have hd : s.drop endI = s[endI] :: s.drop (endI + 1) := List.drop_eq_getElem_cons hlt
+      rw [slice_is_prefix_test]
+      by_cases hp : sep.isPrefixOf (s.drop endI) = true
+      · simp only [hp, if_true]
+        subst hk
+        rw [store_dense]
+        rw [ih _ _ _ _ (by simp) (Nat.le_refl _) hc (by omega)]
+        rw [hd] at hp ⊢
+        simp only [Go.splitFrom, hp, if_true]
+        rw [← hd, List.drop_drop, slice_self]
+        simp
+      · simp only [hp, Bool.false_eq_true, if_false]
+        rw [ih _ _ _ _ hk (by omega) (by omega) (by omega)]
+        rw [hd] at hp ⊢
+        simp only [Go.splitFrom, hp, Bool.false_eq_true, if_false]
+        rw [slice_snoc s startI endI hse hlt]
+    · simp only [hc, if_false]
+      subst hk
+      rw [store_dense, splitFrom_short sep _ _ _ (by simp; omega) (by simp; omega), slice_append_drop s startI endI hse hel, slice_to_end]
+
+theorem splitChars_spec (s : Str) : ∀ (f i : Nat) (elems : List Str), elems.length = i → i ≤ s.length → s.length - i ≤ f →
+    Lib.splitChars s f i elems = elems ++ (s.drop i).map (fun c => [c]) := by
+  intro f
+  induction f with
+  | zero =>
+    intro i elems _ hi hf
+    have : i = s.length := by omega
+    subst this
+    simp [Lib.splitChars]
+  | succ f ih =>
+    intro i elems hk hi hf
+    unfold Lib.splitChars
+    by_cases hlt : i < s.length
+    · simp only [hlt, if_true]
+      subst hk
+      rw [store_dense, ih _ _ (by simp) (by omega) (by omega)]
+      have hd : s.drop elems.length = s[elems.length] :: s.drop (elems.length + 1) := List.drop_eq_getElem_cons hlt
+      have hc : charAt s elems.length = [s[elems.length]] := by unfold charAt; rw [hd]; simp [List.take]
+      rw [hd, hc]
+      simp only [List.map_cons, List.append_assoc, List.singleton_append]
+    · have : i = s.length := by omega
+      subst this
+      simp
+
+/-- **Split** -/
+theorem split_eq (s sep : Str) : Lib.split s sep = Go.split s sep := by
+  unfold Lib.split Go.split
+  cases hs : sep with
+  | nil =>
+    simp
+    have := splitChars_spec s s.length 0 [] rfl (by omega) (by omega)
+    simpa using this
+  | cons a b =>
+    have hne : sep ≠ [] := by rw [hs]; simp
+    simp only [List.length_cons, Nat.add_one_ne_zero, beq_iff_eq, if_false, List.isEmpty_cons, Bool.false_eq_true]
+    have := splitLoop_spec s (a :: b) (by simp) (s.length + 1) 0 0 0 [] rfl (Nat.le_refl _) (by omega) (by omega)
+    simp only [slice_self, List.drop_zero, List.nil_append] at this
+    simpa using this
+
+/-! ### Trim family -/
+
+theorem charAt_of_lt (s : Str) (i : Nat) (h : i < s.length) : charAt s i = [s[i]] := by
+  unfold charAt; rw [List.drop_eq_getElem_cons h]; simp [List.take]
+
+theorem cutPrefix_single (s : Str) (c : Char) :
+    Lib.cutPrefix s [c] = match s with
+      | [] => ([], false)
+      | h :: tl => if h = c then (tl, true) else (h :: tl, false) := by
+  rw [cutPrefix_eq]
+  unfold Go.cutPrefix
+  cases s with
+  | nil => simp [List.isPrefixOf]
+  | cons h tl =>
+    by_cases hc : h = c
+    · subst hc; simp [List.isPrefixOf]
+    · have : (c == h) = false := by simp [Ne.symm hc]
+      simp [List.isPrefixOf, this, hc, Ne.symm hc]
+
+theorem trimPass_flag_true (cutF : Str → Str → Str × Bool) (cutset : Str) : ∀ (f i : Nat) (s : Str),
+    (Lib.trimPass cutF cutset f i s true).2 = true := by
+  intro f
+  induction f with
+  | zero => intro i s; simp [Lib.trimPass]
+  | succ f ih =>
+    intro i s
+    unfold Lib.trimPass
+    split
+    · simp only [Bool.true_or]; exact ih _ _
+    · rfl
+
+/-- one pass over the cutset with `CutPrefix` -/
+theorem trimPass_prefix_spec (cutset : Str) : ∀ (f i : Nat) (s : Str) (t : Bool), cutset.length - i ≤ f →
+    (Lib.trimPass Lib.cutPrefix cutset f i s t).1.dropWhile (cutset.contains ·) = s.dropWhile (cutset.contains ·) ∧
+    (Lib.trimPass Lib.cutPrefix cutset f i s t).1.length ≤ s.length ∧
+    ((Lib.trimPass Lib.cutPrefix cutset f i s t).2 = true → t = true ∨ (Lib.trimPass Lib.cutPrefix cutset f i s t).1.length < s.length) ∧
+    ((Lib.trimPass Lib.cutPrefix cutset f i s t).2 = false →
+      (Lib.trimPass Lib.cutPrefix cutset f i s t).1 = s ∧ ∀ j (hj : j < cutset.length), i ≤ j → s.head? ≠ some cutset[j]) := by
+  intro f
+  induction f with
+  | zero =>
+    intro i s t hf
+    have e : Lib.trimPass Lib.cutPrefix cutset 0 i s t = (s, t) := rfl
+    rw [e]
+    exact ⟨rfl, Nat.le_refl _, fun h => Or.inl h, fun _ => ⟨rfl, fun j hj hij => by omega⟩⟩
+  | succ f ih =>
+    intro i s t hf
+    by_cases hlt : i < cutset.length
+    · cases s with
+      | nil =>
+        have e : Lib.trimPass Lib.cutPrefix cutset (f + 1) i [] t = Lib.trimPass Lib.cutPrefix cutset f (i + 1) [] t := by
+          rw [Lib.trimPass]
+          simp only [hlt, if_true]
+          rw [charAt_of_lt cutset i hlt, cutPrefix_single]
+          simp
+        rw [e]
+        obtain ⟨h1, h2, h3, h4⟩ := ih (i + 1) [] t (by omega)
+        exact ⟨h1, h2, h3, fun hr => ⟨(h4 hr).1, fun j hj _ => by simp⟩⟩
+      | cons h tl =>
+        by_cases hc : h = cutset[i]
+        · have e : Lib.trimPass Lib.cutPrefix cutset (f + 1) i (h :: tl) t = Lib.trimPass Lib.cutPrefix cutset f (i + 1) tl true := by
+            rw [Lib.trimPass]
+            simp only [hlt, if_true]
+            rw [charAt_of_lt cutset i hlt, cutPrefix_single]
+            simp [hc]
+          rw [e]
+          obtain ⟨h1, h2, _, _⟩ := ih (i + 1) tl true (by omega)
+          have hmem : cutset.contains h = true := by rw [hc]; simp
+          refine ⟨?_, ?_, ?_, ?_⟩
+          · rw [h1, List.dropWhile_cons_of_pos hmem]
+          · simp only [List.length_cons]; omega
+          · intro _; right; simp only [List.length_cons]; omega
+          · intro hr; rw [trimPass_flag_true] at hr; cases hr
+        · have e : Lib.trimPass Lib.cutPrefix cutset (f + 1) i (h :: tl) t = Lib.trimPass Lib.cutPrefix cutset f (i + 1) (h :: tl) t := by
+            rw [Lib.trimPass]
+            simp only [hlt, if_true]
+            rw [charAt_of_lt cutset i hlt, cutPrefix_single]
+            simp [hc]
+          rw [e]
+          obtain ⟨h1, h2, h3, h4⟩ := ih (i + 1) (h :: tl) t (by omega)
+          refine ⟨h1, h2, h3, fun hr => ⟨(h4 hr).1, fun j hj hij => ?_⟩⟩
+          by_cases hji : j = i
+          · subst hji; simp; exact hc
+          · exact (h4 hr).2 j hj (by omega)
+    · have e : Lib.trimPass Lib.cutPrefix cutset (f + 1) i s t = (s, t) := by
+        rw [Lib.trimPass]; simp [hlt]
+      rw [e]
+      exact ⟨rfl, Nat.le_refl _, fun h => Or.inl h, fun _ => ⟨rfl, fun j hj hij => by omega⟩⟩
+
+theorem trimLoop_prefix_spec (cutset : Str) : ∀ (f : Nat) (s : Str), s.length < f →
+    Lib.trimLoop Lib.cutPrefix cutset f s = s.dropWhile (cutset.contains ·) := by
+  intro f
+  induction f with
+  | zero => intro s h; omega
+  | succ f ih =>
+    intro s hf
+    unfold Lib.trimLoop
+    obtain ⟨h1, h2, h3, h4⟩ := trimPass_prefix_spec cutset cutset.length 0 s false (by omega)
+    cases ht : (Lib.trimPass Lib.cutPrefix cutset cutset.length 0 s false).2 with
+    | false =>
+      simp only [ht, Bool.not_false, if_true]
+      obtain ⟨e, hall⟩ := h4 ht
+      rw [e]
+      cases s with
+      | nil => rfl
+      | cons h tl =>
+        have : ¬ cutset.contains h = true := by
+          intro hm
+          have hmem : h ∈ cutset := by simpa using hm
+          obtain ⟨j, hj, hje⟩ := List.mem_iff_getElem.mp hmem
+          exact absurd (by simp [hje]) (hall j hj (by omega))
+        rw [List.dropWhile_cons_of_neg this]
+    | true =>
+      simp only [ht, Bool.not_true, Bool.false_eq_true, if_false]
+      rcases h3 ht with hh | hh
+      · cases hh
+      · rw [ih _ (by omega), h1]
+
+/-- **TrimLeft** -/
+theorem trimLeft_eq (s cutset : Str) : Lib.trimLeft s cutset = Go.trimLeft s cutset := by
+  unfold Lib.trimLeft Go.trimLeft
+  by_cases hs : s = []
+  · subst hs; simp
+  · by_cases hcs : cutset = []
+    · subst hcs
+      have : ∀ (l : Str), l.dropWhile (fun _ => false) = l := by
+        intro l; cases l <;> simp [List.dropWhile]
+      simp [this]
+    · have h1 : s.length > 0 := List.length_pos_iff.mpr hs
+      have h2 : cutset.length > 0 := List.length_pos_iff.mpr hcs
+      simp only [h1, h2, decide_true, Bool.and_self, if_true]
+      exact trimLoop_prefix_spec cutset _ s (by omega)
+
+theorem cutSuffix_rev (s : Str) (c : Char) :
+    Lib.cutSuffix s [c] = ((Lib.cutPrefix s.reverse [c]).1.reverse, (Lib.cutPrefix s.reverse [c]).2) := by
+  rw [cutSuffix_eq, cutPrefix_single]
+  unfold Go.cutSuffix
+  rcases List.eq_nil_or_concat s with rfl | ⟨init, x, rfl⟩
+  · simp [List.isSuffixOf]
+  · simp only [List.concat_eq_append]
+    have hr : (init ++ [x]).reverse = x :: init.reverse := by simp
+    rw [hr]
+    by_cases hx : x = c
+    · subst hx
+      have : ([x] : Str).isSuffixOf (init ++ [x]) = true := by
+        rw [List.isSuffixOf_iff_suffix]; exact ⟨init, rfl⟩
+      simp [this]
+    · have : ([c] : Str).isSuffixOf (init ++ [x]) = false := by
+        cases hsf : ([c] : Str).isSuffixOf (init ++ [x]) with
+        | false => rfl
+        | true =>
+          obtain ⟨t, ht⟩ := List.isSuffixOf_iff_suffix.mp hsf
+          have := congrArg List.getLast? ht
+          simp at this
+          exact absurd this.symm hx
+      simp [this, hx]
+
+theorem trimPass_rev (cutset : Str) (cutF cutF' : Str → Str → Str × Bool)
+    (hrel : ∀ s x, cutF' s x = ((cutF s.reverse x).1.reverse, (cutF s.reverse x).2)) :
+    ∀ (f i : Nat) (s : Str) (t : Bool),
+      Lib.trimPass cutF' cutset f i s t =
+        ((Lib.trimPass cutF cutset f i s.reverse t).1.reverse, (Lib.trimPass cutF cutset f i s.reverse t).2) := by
+  intro f
+  induction f with
+  | zero => intro i s t; simp [Lib.trimPass]
+  | succ f ih =>
+    intro i s t
+    rw [Lib.trimPass, Lib.trimPass]
+    by_cases hlt : i < cutset.length
+    · simp only [hlt, if_true, hrel]
+      rw [ih]
+      simp
+    · simp [hlt]
+
+theorem trimLoop_rev (cutset : Str) (cutF cutF' : Str → Str → Str × Bool)
+    (hrel : ∀ s x, cutF' s x = ((cutF s.reverse x).1.reverse, (cutF s.reverse x).2)) :
+    ∀ (f : Nat) (s : Str), Lib.trimLoop cutF' cutset f s = (Lib.trimLoop cutF cutset f s.reverse).reverse := by
+  intro f
+  induction f with
+  | zero => intro s; simp [Lib.trimLoop]
+  | succ f ih =>
+    intro s
+    rw [Lib.trimLoop, Lib.trimLoop, trimPass_rev cutset cutF cutF' hrel]
+    simp only
+    split
+    · simp
+    · rw [ih]; simp
+
+theorem charAt_single_or_nil (cutset : Str) (i : Nat) : ∃ c, charAt cutset i = [c] ∨ charAt cutset i = [] := by
+  by_cases h : i < cutset.length
+  · exact ⟨cutset[i], Or.inl (charAt_of_lt cutset i h)⟩
+  · exact ⟨' ', Or.inr (by unfold charAt; rw [List.drop_eq_nil_of_le (by omega)]; rfl)⟩
+
+/-- the relation only matters for the one-character strings a pass uses -/
+theorem trimPass_suffix_rev (cutset : Str) : ∀ (f i : Nat) (s : Str) (t : Bool),
+    Lib.trimPass Lib.cutSuffix cutset f i s t =
+      ((Lib.trimPass Lib.cutPrefix cutset f i s.reverse t).1.reverse, (Lib.trimPass Lib.cutPrefix cutset f i s.reverse t).2) := by
+  intro f
+  induction f with
+  | zero => intro i s t; simp [Lib.trimPass]
+  | succ f ih =>
+    intro i s t
+    rw [Lib.trimPass, Lib.trimPass]
+    by_cases hlt : i < cutset.length
+    · simp only [hlt, if_true]
+      rw [charAt_of_lt cutset i hlt, cutSuffix_rev, ih]
+      simp
+    · simp [hlt]
+
+theorem trimLoop_suffix_rev (cutset : Str) : ∀ (f : Nat) (s : Str),
+    Lib.trimLoop Lib.cutSuffix cutset f s = (Lib.trimLoop Lib.cutPrefix cutset f s.reverse).reverse := by
+  intro f
+  induction f with
+  | zero => intro s; simp [Lib.trimLoop]
+  | succ f ih =>
+    intro s
+    rw [Lib.trimLoop, Lib.trimLoop, trimPass_suffix_rev]
+    simp only
+    split
+    · simp
+    · rw [ih]; simp
+
+/-- **TrimRight** -/
+theorem trimRight_eq (s cutset : Str) : Lib.trimRight s cutset = Go.trimRight s cutset := by
+  unfold Lib.trimRight Go.trimRight
+  by_cases hs : s = []
+  · subst hs; simp
+  · by_cases hcs : cutset = []
+    · subst hcs
+      have : ∀ (l : Str), l.dropWhile (fun _ => false) = l := by
+        intro l; cases l <;> simp [List.dropWhile]
+      simp [this]
+    · have h1 : s.length > 0 := List.length_pos_iff.mpr hs
+      have h2 : cutset.length > 0 := List.length_pos_iff.mpr hcs
+      simp only [h1, h2, decide_true, Bool.and_self, if_true]
+      rw [trimLoop_suffix_rev, trimLoop_prefix_spec cutset _ s.reverse (by simp)]
+
+/-- **Trim**, **TrimSpace** -/
+theorem trim_eq (s cutset : Str) : Lib.trim s cutset = Go.trim s cutset := by
+  unfold Lib.trim Go.trim; rw [trimLeft_eq, trimRight_eq]
+
+theorem trimSpace_eq (s : Str) : Lib.trimSpace s = Go.trimSpace s := by
+  unfold Lib.trimSpace Go.trimSpace; rw [trim_eq]
+
+/-! ### Replace -/
+
+theorem replaceLoop_nonempty_spec (s old new : Str) (n : Int) (hold : old ≠ []) : ∀ (f i : Nat) (rep : Int) (res : Str),
+    i ≤ s.length → 0 ≤ rep → (0 ≤ n → rep ≤ n) →
+    (Lib.replaceLoop s old new n f i rep res).1 ++ slice s (Lib.replaceLoop s old new n f i rep res).2 s.length =
+      res ++ Go.replaceFrom old new f (n - rep) (s.drop i) := by
+  intro f
+  induction f with
+  | zero => intro i rep res _ _ _; simp [Lib.replaceLoop, Go.replaceFrom, slice_to_end]
+  | succ f ih =>
+    intro i rep res hi hr hn
+    have holen : (old.length == 0) = false := by
+      cases old with
+      | nil => exact absurd rfl hold
+      | cons a b => rfl
+    unfold Lib.replaceLoop
+    by_cases hcont : (decide (i < s.length) && (decide (rep < n) || decide (n < 0))) = true
+    · simp only [hcont, if_true, holen, Bool.false_eq_true, if_false]
+      simp only [Bool.and_eq_true, Bool.or_eq_true, decide_eq_true_eq] at hcont
+      obtain ⟨hlt, hc⟩ := hcont
+      have hne : (n - rep == 0) = false := by
+        simp only [beq_eq_false_iff_ne, ne_eq]
+        rcases hc with h | h <;> omega
+      have hd : s.drop i = s[i] :: s.drop (i + 1) := List.drop_eq_getElem_cons hlt
+      rw [hasPrefix_at]
+      by_cases hp : old.isPrefixOf (s.drop i) = true
+      · simp only [hp, if_true]
+        have hle : i + old.length ≤ s.length := by
+          have := List.IsPrefix.length_le (List.isPrefixOf_iff_prefix.mp hp)
+          simp at this; omega
+        rw [ih _ _ _ hle (by omega) (by intro h0; have := hn h0; rcases hc with h | h <;> omega)]
+        rw [hd] at hp ⊢
+        simp only [Go.replaceFrom, hne, Bool.false_eq_true, if_false, hp, if_true]
+        rw [← hd, List.drop_drop]
+        have : n - (rep + 1) = n - rep - 1 := by omega
+        rw [this]
+        simp
+      · simp only [hp, Bool.false_eq_true, if_false]
+        rw [ih _ _ _ (by omega) hr hn]
+        rw [hd] at hp ⊢
+        simp only [Go.replaceFrom, hne, Bool.false_eq_true, if_false, hp]
+        rw [charAt_of_lt s i hlt]
+        simp
+    · simp only [hcont, Bool.false_eq_true, if_false]
+      simp only [Bool.and_eq_true, Bool.or_eq_true, decide_eq_true_eq] at hcont
+      rw [slice_to_end]
+      by_cases hlt : i < s.length
+      · have hz : n - rep = 0 := by
+          have : ¬ (rep < n ∨ n < 0) := by
+            intro h; exact hcont ⟨hlt, h⟩
+          have h1 : ¬ rep < n := fun h => this (Or.inl h)
+          have h2 : ¬ n < 0 := fun h => this (Or.inr h)
+          have := hn (by omega)
+          omega
+        simp [Go.replaceFrom, hz]
+      · have : s.drop i = [] := List.drop_eq_nil_of_le (by omega)
+        rw [this]
+        simp [Go.replaceFrom]
+
+/-- `new` inserted after each of the first `k` characters (all if `k < 0`) -/
+def insertAfter (new : Str) : Int → Str → Str
+  | _, [] => []
+  | k, c :: t => if k == 0 then c :: t else c :: (new ++ insertAfter new (k - 1) t)
+
+theorem insertAfter_zero (new l : Str) : insertAfter new 0 l = l := by
+  cases l <;> simp [insertAfter]
+
+theorem replaceLoop_empty_spec (s new : Str) (n : Int) : ∀ (f i : Nat) (rep : Int) (res : Str),
+    i ≤ s.length → s.length - i ≤ f → 0 ≤ rep → (0 ≤ n → rep ≤ n) →
+    (Lib.replaceLoop s [] new n f i rep res).1 ++ slice s (Lib.replaceLoop s [] new n f i rep res).2 s.length =
+      res ++ insertAfter new (n - rep) (s.drop i) := by
+  intro f
+  induction f with
+  | zero =>
+    intro i rep res hi hf _ _
+    have : i = s.length := by omega
+    subst this
+    simp [Lib.replaceLoop, slice_to_end, insertAfter]
+  | succ f ih =>
+    intro i rep res hi hf hr hn
+    unfold Lib.replaceLoop
+    by_cases hcont : (decide (i < s.length) && (decide (rep < n) || decide (n < 0))) = true
+    · simp only [hcont, if_true, List.length_nil, beq_self_eq_true]
+      simp only [Bool.and_eq_true, Bool.or_eq_true, decide_eq_true_eq] at hcont
+      obtain ⟨hlt, hc⟩ := hcont
+      have hne : (n - rep == 0) = false := by
+        simp only [beq_eq_false_iff_ne, ne_eq]
+        rcases hc with h | h <;> omega
+      have hd : s.drop i = s[i] :: s.drop (i + 1) := List.drop_eq_getElem_cons hlt
+      rw [ih _ _ _ (by omega) (by omega) (by omega) (by intro h0; have := hn h0; rcases hc with h | h <;> omega)]
+      rw [hd, charAt_of_lt s i hlt]
+      simp only [insertAfter, hne, Bool.false_eq_true, if_false]
+      have : n - (rep + 1) = n - rep - 1 := by omega
+      rw [this]
+      simp
+    · simp only [hcont, Bool.false_eq_true, if_false]
+      simp only [Bool.and_eq_true, Bool.or_eq_true, decide_eq_true_eq] at hcont
+      rw [slice_to_end]
+      by_cases hlt : i < s.length
+      · have hz : n - rep = 0 := by
+          have h1 : ¬ rep < n := fun h => hcont ⟨hlt, Or.inl h⟩
+          have h2 : ¬ n < 0 := fun h => hcont ⟨hlt, Or.inr h⟩
+          have := hn (by omega)
+          omega
+        rw [hz, insertAfter_zero]
+      · have : s.drop i = [] := List.drop_eq_nil_of_le (by omega)
+        rw [this]; simp [insertAfter]
+
+theorem replaceEmpty_as_insertAfter (new : Str) : ∀ (s : Str) (n : Int), n ≠ 0 →
+    Go.replaceEmpty new n s = new ++ insertAfter new (n - 1) s := by
+  intro s
+  induction s with
+  | nil => intro n hn; simp [Go.replaceEmpty, insertAfter, hn]
+  | cons c t ih =>
+    intro n hn
+    have h0 : (n == 0) = false := by simp [hn]
+    simp only [Go.replaceEmpty, h0, Bool.false_eq_true, if_false, insertAfter]
+    by_cases h1 : n - 1 = 0
+    · rw [h1]
+      simp
+      cases t <;> simp [Go.replaceEmpty]
+    · have : (n - 1 == 0) = false := by simp [h1]
+      simp only [this, Bool.false_eq_true, if_false]
+      rw [ih (n - 1) h1]
+
+/-- **Replace** -/
+theorem replace_eq (s old new : Str) (n : Int) : Lib.replace s old new n = Go.replace s old new n := by
+  unfold Lib.replace Go.replace
+  cases hold : old with
+  | nil =>
+    simp only [List.length_nil, beq_self_eq_true, Bool.true_and, List.isEmpty_nil, if_true]
+    by_cases hn : n = 0
+    · subst hn
+      simp only [bne_self_eq_false, Bool.false_eq_true, if_false]
+      have := replaceLoop_empty_spec s new 0 (s.length + 1) 0 0 [] (by omega) (by omega) (by omega) (by omega)
+      simp only [Int.sub_zero, List.drop_zero, List.nil_append, insertAfter_zero] at this
+      rw [this]
+      cases s <;> simp [Go.replaceEmpty]
+    · have hb : (n != 0) = true := by simp [hn]
+      simp only [hb, if_true]
+      have := replaceLoop_empty_spec s new n (s.length + 1) 0 1 new (by omega) (by omega) (by omega) (by intro h; omega)
+      simp only [List.drop_zero] at this
+      rw [this, replaceEmpty_as_insertAfter new s n hn]
+  | cons a b =>
+    have hne : (a :: b) ≠ [] := by simp
+    simp only [List.length_cons, Nat.add_one_ne_zero, beq_iff_eq, Bool.false_and, Bool.false_eq_true, if_false, List.isEmpty_cons]
+    have := replaceLoop_nonempty_spec s (a :: b) new n hne (s.length + 1) 0 0 [] (by omega) (by omega) (by intro h; exact h)
+    simpa using this
+
+/-- **ReplaceAll** -/
+theorem replaceAll_eq (s old new : Str) : Lib.replaceAll s old new = Go.replaceAll s old new := by
+  unfold Lib.replaceAll Go.replaceAll; rw [replace_eq]
 
 /-! non-vacuity -/
 example : Lib.index "hello".toList "ll".toList = 2 ∧ Lib.index "hello".toList "".toList = 0 ∧ Lib.index "".toList "x".toList = -1 := by decide
